@@ -169,6 +169,7 @@ class FinalFeedback:
         self.hide_correctness = self.suppressions.get('correct', self.suppressions.get('success', False))
         # As long as we are allowed, change the default message to the "correct" message
         if (not self.hide_correctness and
+                not self.used and
                 self.label == self.DEFAULT_NO_FEEDBACK_LABEL and
                 self.category == Feedback.CATEGORIES.COMPLETE):
             # TODO: Promote to be its own atomic feedback function
